@@ -79,6 +79,9 @@ class Config:
                             self.opt, self.macro_name)
         if "-DAVEL_AUTO_DETECT" in self.extra:
             n += "-autodetect" + "".join(e.replace("-march=", "-") for e in self.extra if e.startswith("-march="))
+        lines = [e.split("=")[1] for e in self.extra if e.startswith("-DAVEL_L") and "CACHE_LINE_SIZE=" in e]
+        if lines:
+            n += "-lines" + ".".join(lines)
         if self.san:
             n += "-" + self.san_mode
         return n
@@ -217,13 +220,18 @@ def defs_for(macros, cxx="g++"):
     return d
 
 
-def selected_arms(ladders, macros, cxx="g++", cplusplus=201103):
+def selected_arms(ladders, macros, cxx="g++", cplusplus=201103, fine=False):
+    """the arm every ladder selects; fine=True also records which of the macros named in the arm's own condition are
+    defined, so that each distinct way of satisfying a condition (each disjunct, a widened guard) counts separately"""
     defs = defs_for(macros, cxx)
     sel = set()
-    for li, lad in enumerate(ladders):
+    for li, lad in enumerate(lad_ for lad_ in ladders):
         for ai, (line, cond) in enumerate(lad["arms"]):
             if cond is None or eval_cond(cond, defs, cplusplus):
-                sel.add((li, ai))
+                if fine:
+                    sel.add((li, ai, frozenset(a for a in re.findall(r"AVEL_\w+", cond or "") if a in defs)))
+                else:
+                    sel.add((li, ai))
                 break
     return sel
 
@@ -245,12 +253,12 @@ def x86_ladders(include_root, files=None):
     return out
 
 
-def arm_cover(include_root, candidate_sets=None, files=None):
+def arm_cover(include_root, candidate_sets=None, files=None, fine=False):
     """Greedy cover of all arms reachable by some candidate macro set. Returns (cover, stats)."""
     ladders = x86_ladders(include_root, files)
     if candidate_sets is None:
         candidate_sets = lattice_macro_sets()
-    sel = {tuple(m): selected_arms(ladders, m) for m in candidate_sets}
+    sel = {tuple(m): selected_arms(ladders, m, fine=fine) for m in candidate_sets}
     reachable = set().union(*sel.values()) if sel else set()
     total = sum(len(l["arms"]) for l in ladders)
     uncovered = set(reachable)
@@ -264,6 +272,51 @@ def arm_cover(include_root, candidate_sets=None, files=None):
         uncovered -= gain
     return cover, {"ladders": len(ladders), "arms_total": total, "arms_reachable": len(reachable),
                    "cover_size": len(cover)}
+
+
+def axis_cover(include_root, base_sets, candidate_sets=None, files=None):
+    """Arms that no (g++, C++11) build selects but another compiler or standard does (arms guarded
+    by AVEL_CLANG, __cplusplus, ...): a greedy cover of those by (macro set, compiler, standard)."""
+    ladders = x86_ladders(include_root, files)
+    if candidate_sets is None:
+        candidate_sets = lattice_macro_sets()
+    base = set()
+    for m in candidate_sets:
+        base |= selected_arms(ladders, m)
+    for m in base_sets:
+        base |= selected_arms(ladders, m)
+    out = []
+    for cxx, std, cpp in (("clang++", "c++11", 201103), ("g++", "c++20", 202002), ("clang++", "c++20", 202002)):
+        sel = {tuple(m): selected_arms(ladders, m, cxx, cpp) - base for m in candidate_sets}
+        uncovered = set().union(*sel.values()) if sel else set()
+        while uncovered:
+            best = max(sel, key=lambda k: (len(sel[k] & uncovered), -len(k)))
+            gain = sel[best] & uncovered
+            if not gain:
+                break
+            out.append((list(best), cxx, std))
+            uncovered -= gain
+            base |= gain
+    return out
+
+
+def minimal_selecting_sets(include_root, candidate_sets=None, files=None):
+    """For every arm, the candidate macro sets that select it and are minimal under (closed) inclusion: the builds in
+    which an arm whose guard asks for less than its body needs (a dropped AVX512VL, say) fails to compile."""
+    ladders = x86_ladders(include_root, files)
+    cands = [tuple(m) for m in (candidate_sets or lattice_macro_sets())]
+    sel = {m: selected_arms(ladders, m) for m in cands}
+    cl = {m: frozenset(closure(m)) for m in cands}
+    arms = {}
+    for m, s in sel.items():
+        for a in s:
+            arms.setdefault(a, []).append(m)
+    need = []
+    for a, ms in arms.items():
+        for m in ms:
+            if not any(cl[o] < cl[m] for o in ms) and list(m) not in need:
+                need.append(list(m))
+    return sorted(need, key=lambda m: (len(m), m))
 
 
 def arms_selected_by(include_root, macro_sets, files=None):
@@ -293,6 +346,7 @@ PINNED_QUICK = [
 def quick_macro_sets(include_root):
     try:
         cover, _ = arm_cover(include_root)
+        cover += arm_cover(include_root, fine=True)[0]
     except Exception:
         cover = []
     out, seen = [], set()
